@@ -516,6 +516,29 @@ func assumptionsFor(prop string, e *Engine) []string {
 		"pointer receivers are non-nil; distinct pointer parameters may alias only through the shared symbolic heap",
 		"strings are an uninterpreted sort (length, byte-at); fmt/regexp results are opaque",
 	}
+	// modelling conventions that only some contracts rely on
+	uses := func(needle string) bool {
+		for _, c := range e.cs.All {
+			if c.Kind != "func" || !(propsHave(c.Props, prop) || prop == "") {
+				continue
+			}
+			for _, cl := range c.Clauses {
+				if strings.Contains(cl.Text, needle) {
+					return true
+				}
+			}
+		}
+		return false
+	}
+	if uses("broken(") {
+		a = append(a, "broken(w) is defined as: every direct Write on w fails; the stream model assumes !broken(w) on each successful direct write (writes through a buffering wrapper carry no such assumption)")
+	}
+	if uses("freshref(") || prop == "C09" || prop == "C06" || prop == "C02" {
+		a = append(a, "freshref(x) in an assumed summary: the object is distinct from every object the caller holds (Bundle.AddExtensionBlock: the block slice is the old backing array or a fresh one; append into spare capacity shared with another slice is not modelled)")
+	}
+	if prop == "C09" {
+		a = append(a, "math.Min over two converted integers is exact given the proved side obligation |x| <= 2^53 (floatexact); bundles with more than 65536 canonical blocks are outside the claim (precondition)")
+	}
 	seen := map[string]bool{}
 	for _, o := range e.obls {
 		for _, n := range o.Notes {
